@@ -44,12 +44,18 @@ HandDelta(old, new) == RoleRefs(old) - RoleRefs(new)
 XRole(x) == IF x >= 0 THEN 1 ELSE 0
 
 (* ---- a thread's hand: what it retained or took over and has not yet released or handed over ----
-   surplus left at a rest point (API return, item start / end) is parked with the work it belongs to
-   (a redirected item carries its +2 to the worker that completes it); a later deficit draws on it *)
+   Inside the library a thread may hold references (positive) or owe the +2 it is about to take (negative:
+   _dispatch_lane_non_barrier_complete_finish and _dispatch_lane_suspend retain AFTER the state change).
+   At a rest point (API return, start / end of a client callout) the hand is settled: a surplus is parked with
+   the work it belongs to (the +2 of a redirected item travels with the item to the worker that completes it,
+   the +1 of an internal targeter such as a dispatch_after timer source stays until that object is disposed);
+   a deficit is what such a worker consumed and is drawn from the parked references.  A deficit that the
+   parked references cannot cover is a release of a reference nobody held. *)
 Settle(hand, parked, rest) ==
-    IF hand < 0 /\ parked >= -hand THEN [hand |-> 0, parked |-> parked + hand]
-    ELSE IF rest /\ hand > 0 THEN [hand |-> 0, parked |-> parked + hand]
-    ELSE [hand |-> hand, parked |-> parked]
+    IF ~rest THEN [hand |-> hand, parked |-> parked]
+    ELSE IF hand >= 0 THEN [hand |-> 0, parked |-> parked + hand]
+    ELSE IF parked >= -hand THEN [hand |-> 0, parked |-> parked + hand]
+    ELSE [hand |-> hand + parked, parked |-> 0]
 
 (* ---- the dispose condition of property C17, on the abstract roles ----
    xref: external count; held: references the application still holds; busy: items submitted to the
